@@ -51,7 +51,11 @@ JVals ==
    ObjV(<< << StrV(<< 98 >>), IntV(1) >>, << StrV(<< 97 >>), ArrV(<< IntV(2), StrV(<< 34 >>) >>) >> >>),
    ObjV(<< << IntV(1), Null >>, << Null, IntV(1) >>, << True, False >>, << ArrV(<< IntV(1) >>), ObjV(<< << StrV(<<>>), StrV(Ascii("x")) >> >>) >>, << BytesV(<< 1 >>), FltV(1, 2) >>,
            << ObjV(<< << StrV(<< 97 >>), IntV(1) >> >>), ArrV(<< ArrV(<<>>) >>) >>, << StrV(Ascii("1")), StrV(Ascii("null")) >>, << FltV(3, 2), NaN >> >>)}
+\* every spelling of the exponent: read back as a number of the same value (the reader may normalise the spelling)
+ExpSpellings == {Ascii("1.5E3"), Ascii("2E-2"), Ascii("-7E+1"), Ascii("1e+2"), Ascii("0.0e0"), Ascii("1E1000")}
 YamlValCases == {Case(P(Thru("toyaml", "fromyaml")), V1(v), OkS(RT(v)), TRUE) : v \in JVals}
+                \cup {Case(P(TPipe(Thru("toyaml", "fromyaml"), TArr(TComma(TBin("==", TId, SV), TC0("type"))))), V1(DecV(d)), OkS(ArrV(<< True, StrV(Ascii("number")) >>)), TRUE) : d \in ExpSpellings}
+                \cup {Case(P(TPipe(TArr(TId), TPipe(Thru("toyaml", "fromyaml"), TArr(TComma(TBin("==", TAt(TNum(0)), SV), TPipe(TAt(TNum(0)), TC0("type"))))))), V1(DecV(d)), OkS(ArrV(<< True, StrV(Ascii("number")) >>)), TRUE) : d \in ExpSpellings}
 
 \* ---- CSV / TSV ----
 FieldStrs == {<<>>, << 97 >>, Ascii("a,b"), << 97, 34, 98 >>, << 34 >>, << 34, 34 >>, << 97, 10, 98 >>, << 97, 13, 98 >>, << 13, 10 >>, Ascii("1"), Ascii("true"), << 32 >>, << 45 >>, << 44 >>,
@@ -102,6 +106,8 @@ CborVals ==
   \cup {ArrV(Rep(IntV(1), n)) : n \in {0, 1, 23, 24, 25}} \cup {ArrV(<< ArrV(<<>>), ObjV(<<>>), ArrV(<< Null, ArrV(<< True >>) >>) >>)}
   \cup {ObjV(<< << IntV(1), Null >>, << Null, IntV(1) >>, << ArrV(<< IntV(1) >>), ObjV(<< << StrV(<<>>), StrV(<< 97 >>) >> >>) >>, << BytesV(<< 1 >>), FltV(1, 2) >>, << StrV(<< 98 >>), ArrV(<<>>) >>, << FltV(3, 2), IntV(-1) >> >>)}
   \cup {ObjV([i \in 1..24 |-> << IntV(i), IntV(-i) >>])}
+  \* beyond every plausible pre-allocation limit
+  \cup {ArrV(Rep(IntV(1), n)) : n \in {1024, 1025, 70000}} \cup {ObjV([i \in 1..1025 |-> << IntV(i), Null >>])} \cup {StrV(Rep(97, 70000)), BytesV(Rep(1, 70000))}
 CborCases ==
   {Case(P(Thru("tocbor", "fromcbor")), V1(v), OkS(v), IF v.t = "int" THEN CborIntRoundTrip(v.n) ELSE TRUE) : v \in CborVals}
   \cup {Case(P(TPipe(TC0("tocbor"), TC0("tobytes"))), V1(IntV(n)), OkS(BytesV(CborInt(n))), CborIntRoundTrip(n)) : n \in CborInts}
